@@ -644,6 +644,8 @@ class SpecExec(Exec):
                 if a is True:
                     return self.truth(self.eval(e.args[1]))
                 # evaluate the consequent under the antecedent
+                if self.check(a.t) == z3.unsat:
+                    return True
                 mark = self.push_scope()
                 self.solver.add(a.t)
                 self.pc.append(a.t)
